@@ -59,6 +59,13 @@ def run(prop, tier, seed, plan, feature=None, module="MC_Gen", release_too=None,
         n, u = profiles.replay(rep, runs, binaries, "%s (%s)" % (what, item["name"]), prop)
         ncmp += n
         nprog += u
+        # the code the real compiler emits for these programs must be, byte for byte, what Compile.tla (the code generator's twin) computes
+        import compiletwin
+        cap = TWIN_SAMPLE.get(tier, 3000)
+        sub = runs if len(runs) <= cap else runs[:: max(1, len(runs) // cap)][:cap]
+        tn, tf = compiletwin.check(rep, binaries[:1], [(r["id"], r["prog"]) for r in sub], "%s (%s)" % (what, item["name"]), tag="tw" + prop.lower() + item["name"][:8])
+        rep.add("programs_compared_with_the_compiler_twin", tn)
+        rep.add("functions_compared_byte_for_byte", tf)
         log("[%s] %s: %d programs (%d usable), %d comparisons, TLC states %d" % (prop.lower(), item["name"], len(runs), u, n, stats["generated"]))
         for r in runs[:: max(1, len(runs) // 2)][:2]:
             rep.sample({"profile": item["name"], "source": yprog.program_src(r["prog"]), "expected_output": r["out"],
@@ -73,6 +80,7 @@ def run(prop, tier, seed, plan, feature=None, module="MC_Gen", release_too=None,
 
 
 OPS_SAMPLE = {"quick": 40, "thorough": 400}
+TWIN_SAMPLE = {"quick": 3000, "thorough": 40000}
 
 
 def run_scenarios(rep, name, progs, binaries, prop, max_steps=400, trace=True):
@@ -126,6 +134,27 @@ def run_scenarios(rep, name, progs, binaries, prop, max_steps=400, trace=True):
             rep.coverage["traces_validated_by_TraceOps"] = rep.coverage.get("traces_validated_by_TraceOps", 0) + no
             rep.coverage["instructions_validated_by_TraceOps"] = rep.coverage.get("instructions_validated_by_TraceOps", 0) + neo
             n += no
+    if trace:
+        import compiletwin
+        tprogs = []
+        for i, r in enumerate(runs):
+            body = r["prog"]
+            if isinstance(body, list):
+                tprogs.append(([name, str(r.get("id", i))], body))
+            elif isinstance(body, dict):        # snippet sequences / modules: every compilable piece on its own
+                for j, sn in enumerate(body.get("snips", [])):
+                    if sn.get("prog") and not sn.get("bad") and not sn.get("reset"):
+                        tprogs.append(([name, str(r.get("id", i)), "snippet", j], sn["prog"]))
+                for md in body.get("mods", []):
+                    if md.get("prog") and not md.get("bad"):
+                        tprogs.append(([name, str(r.get("id", i)), "module", md["path"]], md["prog"]))
+        cap = TWIN_SAMPLE.get(rep.tier, 3000)
+        if len(tprogs) > cap:
+            tprogs = tprogs[:: max(1, len(tprogs) // cap)][:cap]
+        tn, tf = compiletwin.check(rep, binaries[:1], tprogs, "scenario (%s)" % name, tag="tw" + prop.lower() + name[:6])
+        rep.add("programs_compared_with_the_compiler_twin", tn)
+        rep.add("functions_compared_byte_for_byte", tf)
+        n += tn
     rep.coverage["states"] = rep.coverage.get("states", 0) + res.distinct
     rep.coverage["transitions"] = rep.coverage.get("transitions", 0) + res.generated
     rep.coverage["traces_validated_against_impl"] = rep.coverage.get("traces_validated_against_impl", 0) + n
